@@ -2,7 +2,7 @@
 import z3
 from harness import *
 
-CSI_TOKENS = ['csi0', 'csi1', 'osc_bel0', 'osc_bel1', 'osc_st1']
+CSI_TOKENS = ['csi0', 'csi1', 'csi3', 'osc_bel0', 'osc_bel1', 'osc_st1', 'osc_bel3']
 
 
 class C10(Harness):
@@ -52,11 +52,20 @@ class C10(Harness):
                     p = I.sym_char('p%d' % i, 0, 0x7f, exclude=(ESC,))
                     I.add(z3.Or(z3.ULT(p, 0x40), z3.UGT(p, 0x7e)))
                     seq.append(p)
+                elif o == 'csi3':
+                    # a parameter character outside ASCII can never be the final byte
+                    k = (2, 3, 4)[I.choose(3, 'pclass')]
+                    lo, hi = CLASS_RANGE[k]
+                    seq.append((I.sym_char('q%d' % i, lo, hi), k))
                 f = I.sym_char('f%d' % i, 0x40, 0x7e)
                 seq.append(f)
             else:
                 seq.append(ord(']'))
-                if o != 'osc_bel0':
+                if o == 'osc_bel3':
+                    k = (2, 3, 4)[I.choose(3, 'pclass')]
+                    lo, hi = CLASS_RANGE[k]
+                    seq.append((I.sym_char('y%d' % i, lo, hi), k))
+                elif o != 'osc_bel0':
                     x = I.sym_char('x%d' % i, 0, 0x7f, exclude=(7, ESC))
                     seq.append(x)
                 if o == 'osc_st1':
@@ -64,7 +73,7 @@ class C10(Harness):
                 else:
                     seq.append(7)
             for c in seq:
-                chars.append((c, 1))
+                chars.append(c if isinstance(c, tuple) else (c, 1))
                 vis.append(False)
         return Txt(chars), vis
 
